@@ -365,7 +365,7 @@ pub fn make_knobs(profile: Profile, rng: &mut Rng, thorough: bool) -> Knobs {
         Profile::TwoHop => {
             k.adaptive_pct = *rng.pick(&[0u64, 0, 40, 100]);
             k.has_rewards = rng.chance(1, 2);
-            k.n_pools = 3;
+            k.n_pools = *rng.pick(&[3usize, 4]);
             k.n_lps = 3;
             k.spacing_choices = vec![1, 8, 64, 64, 128, 32768];
         }
@@ -524,7 +524,8 @@ impl Gen {
         let mut used_tiers: Vec<u16> = Vec::new();
         'pools: for p in 0..knobs.n_pools {
             let spacing = *rng.pick(&knobs.spacing_choices);
-            let (ma, mb) = if p == 0 {
+            let (ma, mb) = if p == 0 || p == 3 {
+                // (a fourth pool is a second pool of the first pair - another fee tier: cyclic two-hop routes)
                 (mint_keys[0], mint_keys[1])
             } else if p == 1 {
                 (mint_keys[1], mint_keys[2])
